@@ -700,3 +700,7 @@ def run(ctx):
     from rules import c01 as _c01n
     n_ib = _c01n.index_bound_sites(ctx, "C11/name-stream-index-bound", only_fn="linux::sections::thread_names_stream::write")
     ctx.floor("C11/name-stream-index-bound", "set_value_at call sites in the thread-name stream", n_ib, 1)
+    # "absent auxv values" are reported under the auxv step only if the pair iterator turns a vector that ends before AT_NULL into an error item
+    # (same rule instance as C18/auxv-pairs)
+    from rules import c18 as _c18p
+    _c18p.rule_auxv_pairs(ctx, R="C11/auxv-pairs")
